@@ -89,6 +89,22 @@ func choose(rs []*task) *task {
 		} else {
 			pick = rs[schedRNG.intn(len(rs))]
 		}
+	case "rtb-high", "rtb-random":
+		// the running task goes on until it blocks; then the newest (or a
+		// random) runnable task is taken: started goroutines run in reverse or
+		// arbitrary order of creation
+		for _, t := range rs {
+			if t == cur {
+				pick = t
+			}
+		}
+		if pick == nil {
+			if step.SchedPolicy == "rtb-high" {
+				pick = rs[len(rs)-1]
+			} else {
+				pick = rs[schedRNG.intn(len(rs))]
+			}
+		}
 	default: // run-to-block
 		for _, t := range rs {
 			if t == cur {
@@ -483,7 +499,12 @@ func Sleep(d time.Duration) {
 	yieldPoint()
 }
 
-func NumCPU() int { return 1 + int((step.Seed>>8)%16) }
+func NumCPU() int {
+	if step.CPUs > 0 {
+		return step.CPUs
+	}
+	return 1 + int((step.Seed>>8)%16)
+}
 
 func GOMAXPROCS(n int) int { return NumCPU() }
 
